@@ -46,6 +46,7 @@ type Config struct {
 	Deadline       time.Time
 	Params         map[string]int
 	Havoc          map[string]bool
+	RegionMerge    bool
 }
 
 type Decision struct {
@@ -156,6 +157,10 @@ type Engine struct {
 	ufCalls     []ufCall
 	ghost       map[string]value
 	pipes       map[*value]*pipeState
+
+	fnInfos       map[*ssa.Function]*fnInfo
+	regionFail    map[*ssa.If]int
+	regionsMerged int
 }
 
 func NewEngine(id int, prog *ssa.Program, cfg *Config, shared *Shared) (*Engine, error) {
@@ -176,6 +181,8 @@ func NewEngine(id int, prog *ssa.Program, cfg *Config, shared *Shared) (*Engine,
 		seenFn:    map[*ssa.Function]bool{},
 		seenIntr:  map[*ssa.Function]bool{},
 		qcache:    map[string]qres{},
+		fnInfos:   map[*ssa.Function]*fnInfo{},
+		regionFail: map[*ssa.If]int{},
 	}
 	e.rtErrType = types.Universe.Lookup("error").Type() // placeholder dynamic type for run-time errors
 	if rp := prog.ImportedPackage("runtime"); rp != nil {
@@ -525,7 +532,7 @@ func (e *Engine) allocViolation(fr *frame, instr ssa.Instruction, n *Term) {
 func (e *Engine) assertCond(c *Term, id string, pos string) {
 	s := e.shared
 	if e.mergeDepth > 0 {
-		panic(engineError{"Assert inside merged region"})
+		panic(mergeAbort{"Assert inside merged region"})
 	}
 	if e.cur.replaying() {
 		// replaying: an ancestor path decided this obligation under the
@@ -596,6 +603,9 @@ func (e *Engine) valuesUnder(m Model) ([]uint64, []string) {
 }
 
 func (e *Engine) recordViolation(kind, id, msg, pos string, m Model) {
+	if e.mergeDepth > 0 {
+		panic(mergeAbort{"violation inside merged region"})
+	}
 	if m == nil {
 		m = e.cur.model
 	}
@@ -613,6 +623,9 @@ func (e *Engine) recordViolation(kind, id, msg, pos string, m Model) {
 }
 
 func (e *Engine) reach(id string) {
+	if e.mergeDepth > 0 {
+		panic(mergeAbort{"Reach inside merged region"})
+	}
 	s := e.shared
 	s.mu.Lock()
 	_, seen := s.reached[id]
@@ -635,6 +648,9 @@ func (e *Engine) reach(id string) {
 func (e *Engine) known(id string, p *Term) {
 	if _, ok := e.cfg.Known[id]; !ok {
 		return
+	}
+	if e.mergeDepth > 0 {
+		panic(mergeAbort{"Known inside merged region"})
 	}
 	if p.IsConst() {
 		if p.IsTrue() {
